@@ -131,6 +131,42 @@ pub fn c03(tier: Tier) -> i32 {
                         }
                     }
                 }
+                // a hard limit that the growth chain reaches exactly, falls short of, or passes: the crate's
+                // DoubleUntilLimited against the documented arithmetic written independently, through
+                // the readers (record-shape families)
+                if matches!(fam, Family::Recs(_)) {
+                    for cap in 3..=len.max(1) + 2 {
+                        let mut limits = vec![cap];
+                        let mut v = cap;
+                        while v <= len + 8 {
+                            v = if v < 4 { v * 2 } else { v + 4 };
+                            limits.push(v);
+                            limits.push(v - 1);
+                        }
+                        for limit in limits {
+                            let env_a = Env { format, cap, chunk: Chunk::All, int: IntPat::None, policy: PolKind::Limited(4, limit), fault: None };
+                            let env_b = Env { policy: PolKind::DocLimited(4, limit), ..env_a.clone() };
+                            for d in drivers.iter() {
+                                let (ra, rb) = (run_flat(&data, &env_a, *d), run_flat(&data, &env_b, *d));
+                                l.evals += 1;
+                                l.count("transitions", ra.api_calls);
+                                l.count("limited_policy_pairs", 1);
+                                if nontrivial {
+                                    l.nontrivial += 1;
+                                }
+                                if ra.items != rb.items || ra.marks != rb.marks {
+                                    l.violation(Violation {
+                                        property: "C03".into(),
+                                        sig: format!("{}|{:?}|limited-policy", format.name(), d),
+                                        detail: format!("input {:?}: {:?} gives {:?}, the documented arithmetic of the same policy gives {:?}", esc(&data), env_a, show_flat(&ra), show_flat(&rb)),
+                                        weight: (len * 100_000 + cap) as u64,
+                                        replay: replay_json("c03", &data, &env_a, json!({"driver": d, "against": "documented arithmetic of DoubleUntilLimited"})),
+                                    });
+                                }
+                            }
+                        }
+                    }
+                }
                 if idx % 50_021 == 3 && l.samples.len() < 2 {
                     l.samples.push(json!({"input": esc(&data), "configs_compared": envs.len(), "canonical_next_log": show_flat(&canon[0])}));
                 }
@@ -186,7 +222,7 @@ pub fn c03(tier: Tier) -> i32 {
             property: "C03".into(),
             tier: tier.name().into(),
             rule: format!(
-                "for every input of [{}]: observation logs of three drivers (next() with position() after every call; read_record_set flattened; read_record_set_exact(2) with batch sizes and positions) under every capacity 3..len+2 x policy {{Std,+1,DoubleUntil(4),DoubleUntilLimited(4,1M)}} x chunking x interrupted-read pattern, each compared with the canonical configuration (64 KiB, StdPolicy, single read); equality with one canonical configuration implies equality of all pairs; non-trivial = input with at least one record or error",
+                "for every input of [{}]: observation logs of three drivers (next() with position() after every call; read_record_set flattened; read_record_set_exact(2) with batch sizes and positions) under every capacity 3..len+2 x policy {{Std,+1,DoubleUntil(4),DoubleUntilLimited(4,1M)}} x chunking x interrupted-read pattern, each compared with the canonical configuration (64 KiB, StdPolicy, single read); equality with one canonical configuration implies equality of all pairs; record-shape families additionally under DoubleUntilLimited(4, limit) for every limit on, one below and beyond the growth chain of every capacity, against the same policy written from its documentation; non-trivial = input with at least one record or error",
                 names.join("; ")
             ),
             exhaustive: true,
